@@ -144,6 +144,12 @@ impl Engine for StacksEngine {
 
     fn run(&mut self, case: &Case, obs: &mut Obs) -> Verdict {
         if case.bounded {
+            // element types without drop glue take other paths through clear / Drop
+            if let Err((what, d)) = crate::plain::bounded_plain(case.ops.len() as u64 * 7919 + case.cap as u64, obs) {
+                return Verdict::violation(format!("C14:bounded:{what}"), d);
+            }
+        }
+        if case.bounded {
             run_bounded(case, obs)
         } else {
             run_value(case, obs)
